@@ -1,6 +1,6 @@
 """C06 — truthful, stable final state; the experiment exits."""
 FUNCS = ["Job.dependencychanged", "Dependency.check", "Scheduler.aio_registerJob", "JobDependency.status",
-         "Scheduler.aio_submit", "Scheduler.aio_start"]
+         "Scheduler.aio_submit", "experiment.wait.awaitcompletion", "Scheduler.aio_start"]
 LEVEL = "proof"
 TRUSTED = []
 
